@@ -21,12 +21,16 @@ TrReset ==
     /\ n' = 0 /\ nreg' = 0
 
 CfgOf(r) == [topic |-> r.topic, kind |-> r.kind, match |-> r.match, targets |-> r.targets]
-SeenTuples(h) == [i \in DOMAIN seen[h] |-> <<seen[h][i].topic, seen[h][i].id, seen[h][i].lvl, seen[h][i].prev>>]
+(* a recorder logs <<topic, id, level, previous level>>, and the count for an aggregate summary *)
+SeenTuples(h) == [i \in DOMAIN seen[h] |->
+    IF seen[h][i].cnt > 0 THEN <<seen[h][i].topic, seen[h][i].id, seen[h][i].lvl, seen[h][i].prev, seen[h][i].cnt>>
+    ELSE <<seen[h][i].topic, seen[h][i].id, seen[h][i].lvl, seen[h][i].prev>>]
 
 TrRegister == IsEv("Register") /\ Quiescent /\ Register(Ln.h, CfgOf(Ln))
 TrDeregister ==
     /\ IsEv("Deregister") /\ Quiescent
     /\ (hcfg[Ln.h].kind = "rec" => SeenTuples(Ln.h) = Ln.seen)
+    /\ (hcfg[Ln.h].kind = "agg" => seen[Ln.h] = <<>>)
     /\ Deregister(Ln.h)
 TrReplace ==
     /\ IsEv("Replace") /\ Quiescent
@@ -50,8 +54,9 @@ ObsTopicOK(t, o) ==
     /\ SeqToSet(o.cur) = { <<id, events[t][id]>> : id \in { i \in EventIds : events[t][i] # Absent } }
     /\ \A m \in Levels :
          SeqToSet(o.es[m + 1]) = { id \in EventIds : events[t][id] # Absent /\ events[t][id] >= m }
+AggQuiet == \A h \in Handlers : hcfg[h].kind = "agg" => seen[h] = <<>>
 TrObs ==
-    /\ IsEv("Obs") /\ Quiescent
+    /\ IsEv("Obs") /\ Quiescent /\ AggQuiet
     /\ \A t \in TopicIds : ObsTopicOK(t, Ln.state[t])
     /\ \A h \in DOMAIN Ln.seen : SeenTuples(h) = Ln.seen[h]
     /\ UNCHANGED vars
@@ -61,7 +66,7 @@ TrObs ==
 TrUpd == IsEv("Upd") /\ Update(Ln.p, Ln.topic, Ln.id, Ln.lvl)
 TrEnq == IsEv("Enq") /\ Enqueue(Ln.p)
 
-TrSilent == (\E h \in Handlers : HandlerStep(h)) /\ UNCHANGED l
+TrSilent == (\E h \in Handlers : HandlerStep(h) \/ AggTick(h)) /\ UNCHANGED l
 
 TrNext == TrReset \/ TrRegister \/ TrDeregister \/ TrReplace \/ TrCollect \/ TrObs \/ TrUpd \/ TrEnq \/ TrSilent
 TrSpec == TrInit /\ [][TrNext]_tvars
